@@ -29,6 +29,30 @@ type gate struct {
 	Value string // YAML scalar / flow sequence as written into the config file
 	Class string // short name of the value for signatures
 	Iso   bool   // zero / negative / very large number: the start runs in a child process (it may take the process down)
+	// Path: how the key is written in the YAML file, one element per nesting level (nil = one level per dot). "a.b.c" can be written
+	// a:{b:{c:}} but also a:{b.c:} / a.b:{c:} / a.b.c: — which of them reach the option is up to the loader and the struct tags.
+	Path []string
+}
+
+// tagPaths: for every key found by reflection the path of koanf struct tags that leads to it (a tag may itself contain dots).
+var tagPaths = map[string][]string{}
+
+// compositions returns every way of writing the dotted key as nested YAML levels (2^(n-1) for n segments), nested form first.
+func compositions(key string) [][]string {
+	segs := strings.Split(key, ".")
+	var out [][]string
+	for mask := 0; mask < 1<<(len(segs)-1); mask++ {
+		levels := []string{segs[0]}
+		for i := 1; i < len(segs); i++ {
+			if mask&(1<<(i-1)) != 0 { // glue segment i to the previous level
+				levels[len(levels)-1] += "." + segs[i]
+			} else {
+				levels = append(levels, segs[i])
+			}
+		}
+		out = append(out, levels)
+	}
+	return out
 }
 
 // keys that are not gates, with the reason (reported in the evidence)
@@ -67,7 +91,7 @@ func kindOf(t reflect.Type) string {
 	return ""
 }
 
-func walkConfig(prefix string, t reflect.Type, out map[string]string, skipped map[string]string) {
+func walkConfig(prefix string, t reflect.Type, out map[string]string, skipped map[string]string, path ...string) {
 	for t.Kind() == reflect.Ptr {
 		t = t.Elem()
 	}
@@ -88,10 +112,12 @@ func walkConfig(prefix string, t reflect.Type, out map[string]string, skipped ma
 		for ft.Kind() == reflect.Ptr {
 			ft = ft.Elem()
 		}
+		here := append(append([]string{}, path...), tag)
 		if k := kindOf(ft); k != "" {
 			out[key] = k
+			tagPaths[key] = here
 		} else if ft.Kind() == reflect.Struct {
-			walkConfig(key, ft, out, skipped)
+			walkConfig(key, ft, out, skipped, here...)
 		} else {
 			skipped[key] = ft.String()
 		}
@@ -105,7 +131,7 @@ func configKeys(t *testing.T) (keys map[string]string, skipped map[string]string
 	sys := cmd.CreateSystem(func() {})
 	sys.VisitEngines(func(e core.Engine) {
 		if inj, ok := e.(core.Injectable); ok {
-			walkConfig(strings.ToLower(inj.Name()), reflect.TypeOf(inj.Config()), keys, skipped)
+			walkConfig(strings.ToLower(inj.Name()), reflect.TypeOf(inj.Config()), keys, skipped, strings.ToLower(inj.Name()))
 		}
 	})
 	for _, f := range serverFlags(t, "server") {
@@ -191,7 +217,7 @@ func gateValues(key, kind string) []gate {
 	return nil
 }
 
-func buildGates(t *testing.T) (gates []gate, nkeys int, skipped map[string]string, fromFlagsOnly int) {
+func buildGates(t *testing.T, thorough bool) (gates []gate, nkeys int, skipped map[string]string, fromFlagsOnly int) {
 	keys, skipped, fromFlagsOnly := configKeys(t)
 	var names []string
 	for k := range keys {
@@ -203,7 +229,34 @@ func buildGates(t *testing.T) (gates []gate, nkeys int, skipped map[string]strin
 			continue
 		}
 		nkeys++
-		gates = append(gates, gateValues(k, keys[k])...)
+		vals := gateValues(k, keys[k])
+		gates = append(gates, vals...)
+		// the other ways of writing the key in the file: always the one the struct tags spell (a tag with a dot in it: `koanf:"cache.maxbytes"`
+		// is matched against ONE map level), in the thorough tier every composition
+		nested := strings.Join(strings.Split(k, "."), "|")
+		forms := map[string][]string{}
+		if tp := tagPaths[k]; len(tp) > 0 && strings.Join(tp, "|") != nested {
+			forms[strings.Join(tp, "|")] = tp
+		}
+		if thorough {
+			for _, c := range compositions(k) {
+				if f := strings.Join(c, "|"); f != nested {
+					forms[f] = c
+				}
+			}
+		}
+		var names []string
+		for f := range forms {
+			names = append(names, f)
+		}
+		sort.Strings(names)
+		for _, f := range names {
+			for _, g := range vals {
+				g.Path = forms[f]
+				g.Class += " written " + f
+				gates = append(gates, g)
+			}
+		}
 	}
 	return
 }
@@ -245,13 +298,15 @@ func gateCaseN(c nodeCfg, gs ...gate) nodeCase {
 	for _, g := range gs {
 		flags = append(flags, g.Key+"="+g.Class)
 		nc.Iso = nc.Iso || g.Iso
-		yamlPut(tree, strings.Split(g.Key, "."), g.Value)
-		// options that the starter normally sets through the environment (which would win over the file)
-		for _, owned := range []string{"network.grpcaddr", "http.public.address", "verbosity", "network.enablediscovery"} {
-			if g.Key == owned {
-				nc.Spec.Unset = append(nc.Spec.Unset, envName(owned))
-			}
+		path := g.Path
+		if path == nil {
+			path = strings.Split(g.Key, ".")
 		}
+		yamlPut(tree, path, g.Value)
+		nc.Gates = append(nc.Gates, gateRef{Key: g.Key, Kind: g.Kind, Value: g.Value})
+		// the gated option is decided by the config file: neither the starter nor the matrix may set it through the environment
+		// (which would win over the file)
+		nc.Spec.Unset = append(nc.Spec.Unset, envName(g.Key))
 	}
 	nc.Flag = strings.Join(flags, " & ")
 	nc.Spec.File = yamlTree(tree, 0)
@@ -307,7 +362,7 @@ func yamlRaw(key, value string) string {
 }
 
 func sectionGating(t *testing.T, r *ev.Run) {
-	gates, nkeys, skipped, fromFlagsOnly := buildGates(t)
+	gates, nkeys, skipped, fromFlagsOnly := buildGates(t, r.Thorough())
 	singles := insecureSingles()
 	r.Bound("gating_keys", nkeys)
 	r.Bound("gating_values", len(gates))
@@ -353,6 +408,7 @@ func sectionGating(t *testing.T, r *ev.Run) {
 	var off []gate
 	for _, g := range gates {
 		switch {
+		case g.Path != nil:
 		case g.Kind == "bool", g.Class == "empty", g.Class == "0", g.Class == "empty-list":
 			off = append(off, g)
 		}
